@@ -44,4 +44,7 @@ abbrev ne (a b : α) : Prop := a < b ∨ b < a
 /-- a rational literal `p / q` of the source (`0.5`, `0.25`, `1e-6` are rationals) -/
 def lit (p q : Nat) : α := ((p : Nat) : α) / ((q : Nat) : α)
 
+/-- length of an HDF5 dataset that may be absent (`target[name].shape[0]`; only evaluated where it exists) -/
+def dsLen (ds : Option (List UInt8)) : Nat := match ds with | some d => d.length | none => 0
+
 end Gen
